@@ -4,11 +4,15 @@
 //! (i128 arithmetic and the reference calendar of c01.rs; no chrono timestamp code) check the property
 //! statement on the implementation itself: the instant of every constructed value, the acceptance
 //! rule, floor semantics of the sub-second units, read-back in all four units, the i64-nanosecond
-//! window, the `TimeZone` wrappers and the `SystemTime` conversions.
+//! window, the `TimeZone` wrappers and the `SystemTime` conversions.  Added 2026-09-30 (audit gaps): the
+//! calendar / clock fields of constructed values, the sub-second accessors and the deprecated
+//! `timestamp_nanos()` through `DateTime<FixedOffset>` and `DateTime<Local>` (real zones from the
+//! environment: the offset must not enter), `Local.timestamp_*`, the deprecated `NaiveDateTime::timestamp*`
+//! accessors as correspondence ops, and a dense family on the second -9223372038 (finding F27).
 #![allow(deprecated)]
-use super::c01::{day_num, gen_date, yof, MAX_YEAR, MIN_YEAR};
+use super::c01::{day_num, gen_date, month_len, yof, MAX_YEAR, MIN_YEAR};
 use crate::ctx::*;
-use chrono::{DateTime, Datelike, FixedOffset, MappedLocalTime, NaiveDate, NaiveDateTime, NaiveTime, TimeZone, Timelike, Utc};
+use chrono::{DateTime, Datelike, FixedOffset, Local, MappedLocalTime, NaiveDate, NaiveDateTime, NaiveTime, TimeZone, Timelike, Utc};
 use std::collections::BTreeMap;
 use std::time::{Duration, SystemTime, UNIX_EPOCH};
 
@@ -67,6 +71,23 @@ fn nanos_ok(secs: i64, n: u32) -> bool {
     n < 1_000_000_000 || (n < 2_000_000_000 && secs.rem_euclid(60) == 59)
 }
 
+/// calendar and clock fields of a value built for second count `s`: a valid civil date (month 1..=12,
+/// day 1..=length of that month by the reference calendar) whose reference day number is the floor
+/// day, and hour:minute:second (each in range) making up the second of day
+fn fields_ok(dt: &NaiveDateTime, s: i64) -> bool {
+    let (y, m, d) = (dt.year() as i64, dt.month() as i64, dt.day() as i64);
+    let (h, mi, se) = (dt.hour() as i64, dt.minute() as i64, dt.second() as i64);
+    (1..=12).contains(&m)
+        && d >= 1
+        && d <= month_len(y, m)
+        && day_num(y, m, d) == EPOCH_DAY + s.div_euclid(86_400)
+        && h < 24
+        && mi < 60
+        && se < 60
+        && h * 3600 + mi * 60 + se == s.rem_euclid(86_400)
+        && dt.ordinal() as i64 == day_num(y, m, d) - day_num(y, 1, 1) + 1
+}
+
 /// oracle failures are capped per kind
 struct Fails(BTreeMap<String, u32>);
 impl Fails {
@@ -99,6 +120,121 @@ fn st_make(s: i64, n: u32) -> Option<SystemTime> {
     } else {
         UNIX_EPOCH.checked_sub(Duration::new(s.unsigned_abs(), 0))?.checked_add(Duration::new(0, n))
     }
+}
+
+/// what one `through_local` batch hands back: correspondence cases, oracle failures, class counters
+type LocalOut = (Vec<(String, String)>, Vec<(String, String)>, BTreeMap<String, u64>);
+
+/// The accessors and the `TimeZone::timestamp*` constructors through `DateTime<Local>` with a real zone
+/// taken from the environment (`TZ`; a fresh thread = a fresh zone cache).  The offset is whatever the
+/// zone prescribes (C05's business); C02's claim is that it does not enter: the UTC reading and every
+/// count are those of `DateTime<Utc>`.  The correspondence lines carry the offset the implementation
+/// chose, so the model is asked about exactly that zone-aware value.
+fn through_local(tz: &str, vals: Vec<NaiveDateTime>, cases: Vec<(i64, u32)>, counts: Vec<(i64, u8)>) -> LocalOut {
+    let old = std::env::var("TZ").ok();
+    std::env::set_var("TZ", tz);
+    let tzs = tz.to_string();
+    let out = std::thread::spawn(move || {
+        let mut ops: Vec<(String, String)> = vec![];
+        let mut fails: Vec<(String, String)> = vec![];
+        let mut cnt: BTreeMap<String, u64> = BTreeMap::new();
+        let mut offs: std::collections::BTreeSet<i32> = Default::default();
+        let pro = |r: Result<Option<i64>, ()>| match r { Ok(o) => opt(o), Err(()) => "panic".into() };
+        for dt in &vals {
+            let key = show_dt(dt);
+            let u = dt.and_utc();
+            let z = match guard(|| Local.from_utc_datetime(dt)) {
+                Ok(z) => z,
+                Err(()) => {
+                    fails.push(("Local.from_utc_datetime panicked on a representable UTC date-time".into(), format!("TZ={tzs} {key}")));
+                    continue;
+                }
+            };
+            let off = chrono::Offset::fix(z.offset()).local_minus_utc();
+            offs.insert(off);
+            let zg = format!("{} {} {} {}", pr(guard(|| z.timestamp())), pr(guard(|| z.timestamp_millis())), pr(guard(|| z.timestamp_micros())), pro(guard(|| z.timestamp_nanos_opt())));
+            let ug = format!("{} {} {} {}", pr(guard(|| u.timestamp())), pr(guard(|| u.timestamp_millis())), pr(guard(|| u.timestamp_micros())), pro(guard(|| u.timestamp_nanos_opt())));
+            let sub = |t: Result<(u32, u32, u32), ()>| match t { Ok(t) => format!("{} {} {}", t.0, t.1, t.2), Err(()) => "panic panic panic".into() };
+            let zs = format!("{} {}", sub(guard(|| (z.timestamp_subsec_millis(), z.timestamp_subsec_micros(), z.timestamp_subsec_nanos()))), pr(guard(|| z.timestamp_nanos())));
+            let us = format!("{} {}", sub(guard(|| (u.timestamp_subsec_millis(), u.timestamp_subsec_micros(), u.timestamp_subsec_nanos()))), pr(guard(|| u.timestamp_nanos())));
+            if zg != ug || zs != us || z.naive_utc() != *dt {
+                fails.push(("the timestamp of a DateTime<Local> depends on the zone's offset".into(), format!("TZ={tzs} ts.zget {key} {off} -> {zg} {zs} vs {ug} {us}")));
+            }
+            if guard(|| st_obs(SystemTime::from(z))) != guard(|| st_obs(SystemTime::from(u))) {
+                fails.push(("SystemTime::from(DateTime<Local>) differs from SystemTime::from(DateTime<Utc>) of the same instant".into(), format!("TZ={tzs} {key}")));
+            }
+            ops.push((format!("ts.zget {key} {off}"), zg));
+            ops.push((format!("ts.zsub {key} {off}"), zs));
+            *cnt.entry(if dt.time().nanosecond() >= 1_000_000_000 { "local:accessors, leap-second value" } else { "local:accessors, non-leap value" }.into()).or_insert(0) += 1;
+        }
+        for &(s, n) in &cases {
+            let want = DateTime::from_timestamp(s, n).map(|d| d.naive_utc());
+            match guard(|| Local.timestamp_opt(s, n)) {
+                Ok(MappedLocalTime::Single(z)) => {
+                    let off = chrono::Offset::fix(z.offset()).local_minus_utc();
+                    offs.insert(off);
+                    if Some(z.naive_utc()) != want || guard(|| (z.timestamp(), z.timestamp_subsec_nanos())) != Ok((s, n)) {
+                        fails.push(("Local.timestamp_opt: the zone changed the instant".into(), format!("TZ={tzs} ts.tz_opt {off} {s} {n}")));
+                    }
+                    ops.push((format!("ts.tz_opt {off} {s} {n}"), show_z(&z)));
+                    *cnt.entry("local:timestamp_opt Single".into()).or_insert(0) += 1;
+                }
+                Ok(MappedLocalTime::None) => {
+                    if want.is_some() {
+                        fails.push(("Local.timestamp_opt refused a representable instant with a valid nanosecond field".into(), format!("TZ={tzs} {s} {n}")));
+                    }
+                    ops.push((format!("ts.tz_opt 0 {s} {n}"), "none".into()));
+                    *cnt.entry("local:timestamp_opt None".into()).or_insert(0) += 1;
+                }
+                Ok(MappedLocalTime::Ambiguous(_, _)) => fails.push(("Local.timestamp_opt returned Ambiguous for an instant".into(), format!("TZ={tzs} {s} {n}"))),
+                Err(()) => fails.push(("Local.timestamp_opt panicked".into(), format!("TZ={tzs} {s} {n}"))),
+            }
+            // unwrap form
+            let ru = guard(|| Local.timestamp(s, n));
+            if ru.as_ref().ok().map(|z| z.naive_utc()) != want {
+                fails.push(("Local.timestamp (unwrap form) does not panic exactly when timestamp_opt is None / returns another value".into(), format!("TZ={tzs} {s} {n}")));
+            }
+        }
+        for &(x, unit) in &counts {
+            let (name, want, r): (&str, Option<NaiveDateTime>, Result<Option<DateTime<Local>>, ()>) = match unit {
+                0 => ("ms", DateTime::from_timestamp_millis(x).map(|d| d.naive_utc()), guard(|| Local.timestamp_millis_opt(x).single())),
+                1 => ("us", DateTime::from_timestamp_micros(x).map(|d| d.naive_utc()), guard(|| Local.timestamp_micros(x).single())),
+                _ => ("ns", guard(|| DateTime::from_timestamp_nanos(x).naive_utc()).ok(), guard(|| Some(Local.timestamp_nanos(x)))),
+            };
+            match r {
+                Ok(Some(z)) => {
+                    let off = chrono::Offset::fix(z.offset()).local_minus_utc();
+                    let back = match unit {
+                        0 => guard(|| Some(z.timestamp_millis())),
+                        1 => guard(|| Some(z.timestamp_micros())),
+                        _ => guard(|| z.timestamp_nanos_opt()),
+                    };
+                    if Some(z.naive_utc()) != want || back != Ok(Some(x)) {
+                        fails.push((format!("Local.timestamp_{name}*: the zone changed the instant / the count does not read back"), format!("TZ={tzs} {x} (offset {off})")));
+                    }
+                    ops.push((format!("ts.tz_{}{} {off} {x}", name, if unit == 0 { "_opt" } else { "" }), show_z(&z)));
+                    *cnt.entry(format!("local:timestamp_{name} value")).or_insert(0) += 1;
+                }
+                Ok(None) => {
+                    if want.is_some() {
+                        fails.push((format!("Local.timestamp_{name}* refused a representable instant"), format!("TZ={tzs} {x}")));
+                    }
+                    ops.push((format!("ts.tz_{}{} 0 {x}", name, if unit == 0 { "_opt" } else { "" }), "none".into()));
+                    *cnt.entry(format!("local:timestamp_{name} None")).or_insert(0) += 1;
+                }
+                Err(()) => fails.push((format!("Local.timestamp_{name}* panicked"), format!("TZ={tzs} {x}"))),
+            }
+        }
+        *cnt.entry(format!("local:distinct offsets met in TZ={tzs}")).or_insert(0) += offs.len() as u64;
+        (ops, fails, cnt)
+    })
+    .join()
+    .unwrap_or_else(|_| (vec![], vec![("the DateTime<Local> batch died".into(), tz.to_string())], BTreeMap::new()));
+    match old {
+        Some(v) => std::env::set_var("TZ", v),
+        None => std::env::remove_var("TZ"),
+    }
+    out
 }
 
 // ---- generators ----------------------------------------------------------------------------------
@@ -202,12 +338,12 @@ fn gen_dt(c: &mut Ctx, pts: &[i128]) -> NaiveDateTime {
         _ => gen_date(c),
     };
     let secs: u32 = match c.rng.below(4) {
-        0 => *c.rng.pick(&[0u32, 1, 59, 60, 86_339, 86_398, 86_399, 43_200, 763, 764, 85_636, 85_635, 85_637]),
+        0 => *c.rng.pick(&[0u32, 1, 59, 60, 86_339, 86_398, 86_399, 43_200, 761, 762, 763, 764, 85_636, 85_635, 85_637]),
         1 => (c.rng.below(1440) * 60 + 59) as u32,
         _ => c.rng.below(86_400) as u32,
     };
     let frac: u32 = match c.rng.below(5) {
-        0 => *c.rng.pick(&[0u32, 1, 999_999_999, 1_000_000_000, 1_999_999_999, 145_224_192, 145_224_191, 145_224_193, 854_775_807, 854_775_808, 854_775_806, 999_999, 1_000_000, 999, 1000]),
+        0 => *c.rng.pick(&[0u32, 1, 999_999_999, 1_000_000_000, 1_999_999_999, 145_224_192, 145_224_191, 145_224_193, 1_145_224_192, 1_145_224_191, 1_145_224_193, 854_775_807, 854_775_808, 854_775_806, 1_854_775_807, 1_854_775_808, 999_999, 1_000_000, 999, 1000]),
         1 => 1_000_000_000 + c.rng.nanos(),
         _ => c.rng.nanos(),
     };
@@ -284,6 +420,8 @@ pub fn run(c: &mut Ctx) {
                     fl.hit(c, "from_timestamp accepted an out-of-range instant or an invalid nanosecond field", &format!("ts.from {s} {n} -> {}", show_dt(dt)));
                 } else if inst_secs(dt) != s as i128 || dt.time().nanosecond() != n {
                     fl.hit(c, "from_timestamp built a value that is not `secs` seconds from the epoch", &format!("ts.from {s} {n} -> {} = {} s", show_dt(dt), inst_secs(dt)));
+                } else if !fields_ok(dt, s) {
+                    fl.hit(c, "from_timestamp: the calendar / clock fields are not the civil date and time of day of the floor day and second of day", &format!("ts.from {s} {n} -> {}-{}-{} {}:{}:{}", dt.year(), dt.month(), dt.day(), dt.hour(), dt.minute(), dt.second()));
                 } else {
                     // read back
                     let u = dt.and_utc();
@@ -302,7 +440,14 @@ pub fn run(c: &mut Ctx) {
         // the deprecated NaiveDateTime forms and the TimeZone wrappers, on a rotating share of the cases
         match i % 6 {
             0 => c.op(&format!("ts.nfrom_opt {s} {n}"), &gs(|| NaiveDateTime::from_timestamp_opt(s, n), show_odt)),
-            1 => c.op(&format!("ts.nfrom {s} {n}"), &gs(|| NaiveDateTime::from_timestamp(s, n), |d| show_dt(&d))),
+            1 => {
+                let ru = guard(|| NaiveDateTime::from_timestamp(s, n));
+                if ru.ok() != got.clone().ok().flatten() || ru.is_ok() != want {
+                    fl.hit(c, "NaiveDateTime::from_timestamp (expect form) does not panic exactly when DateTime::from_timestamp is None / returns another value", &format!("ts.nfrom {s} {n}"));
+                }
+                c.count(if ru.is_ok() { "nfrom(expect):value" } else { "nfrom(expect):panic" });
+                c.op(&format!("ts.nfrom {s} {n}"), &match ru { Ok(d) => show_dt(&d), Err(()) => "panic".into() });
+            }
             2 | 3 => {
                 let off = gen_off(c);
                 let fo = FixedOffset::east_opt(off).unwrap();
@@ -313,8 +458,19 @@ pub fn run(c: &mut Ctx) {
                     }
                 }
                 c.op(&format!("ts.tz_opt {off} {s} {n}"), &match r { Ok(m) => show_mlt(m), Err(()) => "panic".into() });
-                if i % 12 == 2 {
-                    c.op(&format!("ts.tz {off} {s} {n}"), &gs(|| fo.timestamp(s, n), |z| show_z(&z)));
+                if i % 12 == 2 || i % 12 == 3 {
+                    // the `unwrap` form: panics exactly when timestamp_opt is None, else the same value
+                    let ru = guard(|| fo.timestamp(s, n));
+                    let same = match (&ru, &r) {
+                        (Ok(z), Ok(MappedLocalTime::Single(z2))) => z == z2 && z.offset() == z2.offset(),
+                        (Err(()), Ok(MappedLocalTime::None)) => true,
+                        _ => false,
+                    };
+                    if !same || ru.is_ok() != want {
+                        fl.hit(c, "TimeZone::timestamp (unwrap form) does not panic exactly when timestamp_opt is None / returns another value", &format!("ts.tz {off} {s} {n}"));
+                    }
+                    c.count(if ru.is_ok() { "tz(unwrap):value" } else { "tz(unwrap):panic" });
+                    c.op(&format!("ts.tz {off} {s} {n}"), &match ru { Ok(z) => show_z(&z), Err(()) => "panic".into() });
                 }
             }
             4 => {
@@ -401,6 +557,20 @@ pub fn run(c: &mut Ctx) {
                     }
                     c.op(&format!("ts.nfrom_ns {x}"), &match r { Ok(o) => show_odt(o), Err(()) => "panic".into() });
                 }
+                (_, 3) if i % 8 == 3 => {
+                    // the same wrappers on the `Utc` zone type (modelled as offset 0)
+                    let r: Result<Option<DateTime<Utc>>, ()> = match uname {
+                        "ms" => guard(|| Utc.timestamp_millis_opt(x).single()),
+                        "us" => guard(|| Utc.timestamp_micros(x).single()),
+                        _ => guard(|| Some(Utc.timestamp_nanos(x))),
+                    };
+                    if r.map(|o| o.map(|z| z.naive_utc())) != got {
+                        fl.hit(c, "Utc.timestamp_millis_opt/_micros/_nanos differ from DateTime::from_timestamp_*", &line);
+                    }
+                    let opn = match uname { "ms" => "tz_ms_opt", "us" => "tz_us", _ => "tz_ns" };
+                    c.op(&format!("ts.{opn} 0 {x}"), &match r { Ok(Some(z)) => show_z(&z), Ok(None) => "none".into(), Err(()) => "panic".into() });
+                    c.count("utc-typed sub-second wrappers");
+                }
                 (_, 2) => {
                     let off = gen_off(c);
                     let fo = FixedOffset::east_opt(off).unwrap();
@@ -408,7 +578,12 @@ pub fn run(c: &mut Ctx) {
                         "ms" => {
                             c.op(&format!("ts.tz_ms_opt {off} {x}"), &gs(|| fo.timestamp_millis_opt(x), show_mlt));
                             if i % 8 == 2 {
-                                c.op(&format!("ts.tz_ms {off} {x}"), &gs(|| fo.timestamp_millis(x), |z| show_z(&z)));
+                                let ru = guard(|| fo.timestamp_millis(x));
+                                if ru.as_ref().ok().map(|z| z.naive_utc()) != got.clone().ok().flatten() || ru.is_ok() != in_range {
+                                    fl.hit(c, "TimeZone::timestamp_millis (unwrap form) does not panic exactly when timestamp_millis_opt is None / returns another value", &format!("ts.tz_ms {off} {x}"));
+                                }
+                                c.count(if ru.is_ok() { "tz_ms(unwrap):value" } else { "tz_ms(unwrap):panic" });
+                                c.op(&format!("ts.tz_ms {off} {x}"), &match ru { Ok(z) => show_z(&z), Err(()) => "panic".into() });
                             }
                         }
                         "us" => c.op(&format!("ts.tz_us {off} {x}"), &gs(|| fo.timestamp_micros(x), show_mlt)),
@@ -454,10 +629,32 @@ pub fn run(c: &mut Ctx) {
                 vals.push(mk(y, m, d, s, f));
             }
         }
+        // the one second on which the pre-32de816 workaround failed (F27), densely: nanosecond fields
+        // around 1_145_224_192 (count = i64::MIN) and across the whole leap half, plus the neighbours
+        for _ in 0..c.n(400, 4000) {
+            let f = match c.rng.below(4) {
+                0 => (1_145_224_192i64 + c.rng.range(-3, 3)) as u32,
+                1 => 1_145_224_192 + c.rng.below(854_775_808) as u32,
+                2 => 1_000_000_000 + c.rng.nanos(),
+                _ => c.rng.nanos(),
+            };
+            let s = *c.rng.pick(&[762u32, 762, 762, 761, 763]);
+            vals.push(mk(1677, 9, 21, s, f));
+        }
         if inst_ns(&vals[2]) != i64::MIN as i128 || inst_ns(&vals[5]) != i64::MAX as i128 {
             fl.hit(c, "harness self-check: the window-end values are misplaced", "");
         }
     }
+    {
+        // dense around the epoch and both range ends, for the SystemTime conversion (Ok / Err branch of
+        // duration_since, the borrow of the Err branch, a leap second carried into the next second)
+        for (d, secs) in [(NaiveDate::from_ymd_opt(1969, 12, 31).unwrap(), 86_399u32), (NaiveDate::from_ymd_opt(1969, 12, 31).unwrap(), 86_398), (NaiveDate::from_ymd_opt(1970, 1, 1).unwrap(), 0), (NaiveDate::from_ymd_opt(1970, 1, 1).unwrap(), 1), (NaiveDate::MIN, 0), (NaiveDate::MIN, 1), (NaiveDate::MAX, 86_399), (NaiveDate::MAX, 86_398)] {
+            for f in [0u32, 1, 2, 499_999_999, 500_000_000, 999_999_998, 999_999_999, 1_000_000_000, 1_000_000_001, 1_500_000_000, 1_999_999_999] {
+                vals.push(NaiveDateTime::new(d, NaiveTime::from_num_seconds_from_midnight_opt(secs, 0).unwrap().with_nanosecond(f).unwrap()));
+            }
+        }
+    }
+    let n_hand = vals.len();
     let n_vals = c.n(200_000, 2_400_000);
     for _ in 0..n_vals {
         let v = gen_dt(c, &pts);
@@ -501,14 +698,18 @@ pub fn run(c: &mut Ctx) {
                 if *v as i128 != ens {
                     fl.hit(c, "timestamp_nanos_opt returned a wrong count", &format!("ts.get {key} -> {v}, expected {ens}"));
                 }
+                if es == -9_223_372_038 && frac >= 1_145_224_192 {
+                    c.count("get:F27 class (second -9223372038, leap field, count fits i64): count reported");
+                }
             }
             Ok(None) => {
-                // for a leap-second representation that is not on a second 59 (only `with_nanosecond`
-                // builds one) there is no count to speak of; the model reproduces the behaviour
+                // every representable value (theorem nanos_opt_exact_all): absence only when the count
+                // does not fit.  A leap-second representation off second 59 (only `with_nanosecond`
+                // builds one) is reported under its own prefix: that was finding F27 (repaired 32de816)
                 if fits_i64(ens) && strict {
                     fl.hit(c, "timestamp_nanos_opt reports absence although the count fits in 64 bits", &format!("ts.get {key}, count {ens}"));
                 } else if fits_i64(ens) {
-                    c.count("get:OBSERVATION nanos_opt = None for a non-:59 leap representation whose position fits i64");
+                    fl.hit(c, "F27: timestamp_nanos_opt reports absence for a leap-second representation off second 59 whose count fits in 64 bits", &format!("ts.get {key}, count {ens}"));
                 }
             }
             Err(()) => fl.hit(c, "timestamp_nanos_opt panicked", &format!("ts.get {key}")),
@@ -549,9 +750,41 @@ pub fn run(c: &mut Ctx) {
                     fl.hit(c, "the timestamp of a zone-aware value depends on its offset", &format!("ts.zget {key} {off} -> {zg} vs {got}"));
                 }
                 c.op(&format!("ts.zget {key} {off}"), &zg);
+                let zn = guard(|| z.timestamp_nanos());
+                let zs = format!(
+                    "{} {}",
+                    match guard(|| (z.timestamp_subsec_millis(), z.timestamp_subsec_micros(), z.timestamp_subsec_nanos())) { Ok(t) => format!("{} {} {}", t.0, t.1, t.2), Err(()) => "panic panic panic".into() },
+                    pr(zn)
+                );
+                if !got.ends_with(&zs[..zs.rfind(' ').unwrap()]) {
+                    fl.hit(c, "the sub-second accessors of a zone-aware value depend on its offset", &format!("ts.zsub {key} {off} -> {zs} vs {got}"));
+                }
+                // the `expect` form: panics exactly when timestamp_nanos_opt is None, else the same count
+                if zn.ok() != nsopt.clone().ok().flatten() {
+                    fl.hit(c, "DateTime::timestamp_nanos (expect form) does not panic exactly when timestamp_nanos_opt is None / returns another count", &format!("ts.zsub {key} {off} -> {zs}"));
+                }
+                c.op(&format!("ts.zsub {key} {off}"), &zs);
+                if leap {
+                    c.count("zsub:leap-second value through a fixed offset");
+                }
             }
             1 => {
-                c.op(&format!("ts.nanos {key}"), &pr(guard(|| u.timestamp_nanos())));
+                let un = guard(|| u.timestamp_nanos());
+                if un.ok() != nsopt.clone().ok().flatten() {
+                    fl.hit(c, "DateTime::timestamp_nanos (expect form) does not panic exactly when timestamp_nanos_opt is None / returns another count", &format!("ts.nanos {key}"));
+                }
+                c.count(if un.is_ok() { "nanos(expect):value" } else { "nanos(expect):panic" });
+                c.op(&format!("ts.nanos {key}"), &pr(un));
+                c.op(
+                    &format!("ts.nget {key}"),
+                    &format!(
+                        "{} {} {} {} {} {}",
+                        pr(guard(|| dt.timestamp())), pr(guard(|| dt.timestamp_millis())), pr(guard(|| dt.timestamp_micros())),
+                        match guard(|| dt.timestamp_nanos_opt()) { Ok(o) => opt(o), Err(()) => "panic".into() },
+                        match guard(|| (dt.timestamp_subsec_millis(), dt.timestamp_subsec_micros(), dt.timestamp_subsec_nanos())) { Ok(t) => format!("{} {} {}", t.0, t.1, t.2), Err(()) => "panic panic panic".into() },
+                        pr(guard(|| dt.timestamp_nanos()))
+                    ),
+                );
                 // deprecated NaiveDateTime accessors delegate
                 if guard(|| (dt.timestamp(), dt.timestamp_millis(), dt.timestamp_micros(), dt.timestamp_nanos_opt(), dt.timestamp_subsec_nanos()))
                     != guard(|| (u.timestamp(), u.timestamp_millis(), u.timestamp_micros(), u.timestamp_nanos_opt(), u.timestamp_subsec_nanos()))
@@ -565,8 +798,11 @@ pub fn run(c: &mut Ctx) {
                     fl.hit(c, "and_utc().naive_utc() is not the identity", &key);
                 }
             }
-            _ => {
-                // SystemTime
+            _ => {}
+        }
+        // SystemTime: a quarter of the random values, every hand-made one
+        if i % 4 == 3 || i < n_hand {
+            {
                 let st = guard(|| SystemTime::from(u));
                 c.op(&format!("ts.to_st {key}"), &match &st { Ok(t) => { let (s, n) = st_obs(*t); format!("{s} {n}") } Err(()) => "panic".into() });
                 match &st {
@@ -586,15 +822,69 @@ pub fn run(c: &mut Ctx) {
                     }
                     Err(()) => fl.hit(c, "SystemTime::from(DateTime) panicked", &format!("ts.to_st {key}")),
                 }
+                // the conversion is generic in the zone: a fixed offset must not enter
+                let off = gen_off(c);
+                let zf = u.with_timezone(&FixedOffset::east_opt(off).unwrap());
+                if guard(|| SystemTime::from(zf)).map(st_obs) != st.map(st_obs) {
+                    fl.hit(c, "SystemTime::from(DateTime<FixedOffset>) depends on the offset", &format!("ts.to_st {key} (offset {off})"));
+                }
             }
         }
     }
     c.sample(&format!("ts.get {} -> nanos {}", show_dt(&vals[2]), gs(|| vals[2].and_utc().timestamp_nanos_opt(), opt)));
     c.sample(&format!("ts.get {} -> nanos {}", show_dt(&vals[4]), gs(|| vals[4].and_utc().timestamp_nanos_opt(), opt)));
 
+    // ======== the same through DateTime<Local> (real zones; the offset must not enter) ==========
+    {
+        let n_loc = c.n(2_500, 30_000);
+        for tz in ["America/New_York", "Europe/London", "Australia/Lord_Howe", "Asia/Kolkata", "Pacific/Apia", "EST5EDT,M3.2.0,M11.1.0", "<-03:30>3:30"] {
+            if !tz.contains(',') && !tz.contains('<') && !std::path::Path::new("/usr/share/zoneinfo").join(tz).exists() {
+                c.count("local:zone file not installed (skipped)");
+                continue;
+            }
+            // the hand-made window-end / F27 values, then a random share of everything generated above
+            let head = vals.len().min(500);
+            let mut lv: Vec<NaiveDateTime> = vals[..head].to_vec();
+            for _ in 0..n_loc {
+                lv.push(vals[c.rng.below(vals.len() as u64) as usize]);
+            }
+            let mut lc: Vec<(i64, u32)> = cases[..cases.len().min(300)].to_vec();
+            for _ in 0..n_loc {
+                lc.push(cases[c.rng.below(cases.len() as u64) as usize]);
+            }
+            let mut lx: Vec<(i64, u8)> = vec![];
+            for unit in 0..3u8 {
+                let u = [1_000i128, 1_000_000, NS][unit as usize];
+                for x in [0i64, -1, 1, i64::MIN, i64::MAX, clamp_i64(lo as i128 * u), clamp_i64(lo as i128 * u - 1), clamp_i64((hi as i128 + 1) * u - 1), clamp_i64((hi as i128 + 1) * u)] {
+                    lx.push((x, unit));
+                }
+                for _ in 0..n_loc / 3 {
+                    lx.push((gen_count(c, u, &pts), unit));
+                }
+            }
+            let (ops, fails, cnt) = through_local(tz, lv, lc, lx);
+            for (line, got) in ops {
+                c.op(&line, &got);
+            }
+            for (what, detail) in fails {
+                fl.hit(c, &what, &detail);
+            }
+            for (k, n) in cnt {
+                c.count_n(&k, n);
+            }
+        }
+    }
+
     // ======== SystemTime -> DateTime<Utc> =======================================================
     let n_st = c.n(80_000, 800_000);
     let mut sts: Vec<(i64, u32)> = vec![(0, 0), (0, 1), (-1, 999_999_999), (-1, 0), (-1, 1), (1, 0), (lo, 0), (hi, 999_999_999), (lo - 1, 999_999_999), (hi + 1, 0), (i64::MIN, 0), (i64::MIN, 1), (i64::MIN + 1, 0), (i64::MAX, 999_999_999), (i64::MAX, 0)];
+    for s0 in [0i64, lo, hi, -86_400, 86_400, i64::MIN / 1_000_000_000, i64::MAX / 1_000_000_000] {
+        for ds in -3i64..=3 {
+            for n in [0u32, 1, 2, 499_999_999, 500_000_000, 999_999_998, 999_999_999] {
+                sts.push((s0 + ds, n));
+            }
+        }
+    }
     for _ in 0..n_st {
         let s = gen_secs(c, &pts);
         let n = match c.rng.below(3) {
